@@ -1,3 +1,4 @@
 //! Independent reference models (oracles). Nothing in here calls the code it judges.
 pub mod geom;
 pub mod gdsflat;
+pub mod gdsstream;
